@@ -1,9 +1,12 @@
 //! Harness-side `Engine` implementations (models). Each is listed in the
 //! evidence of the checks that use it.
+use crate::k;
+use crate::stubs::ghost_read;
 use reed_solomon_simd::engine::{Engine, GfElement, ShardsRefMut, GF_ORDER};
 
-/// No arithmetic at all: for control-flow / bookkeeping properties whose
-/// behaviour is data independent.
+// ======================================================================
+// NullEngine: no arithmetic at all (control-flow / bookkeeping properties).
+
 #[derive(Clone, Copy)]
 pub struct NullEngine;
 
@@ -12,4 +15,255 @@ impl Engine for NullEngine {
     fn ifft(&self, _d: &mut ShardsRefMut, _p: usize, _s: usize, _t: usize, _k: usize) {}
     fn mul(&self, _x: &mut [[u8; 64]], _log_m: GfElement) {}
     fn eval_poly(_e: &mut [GfElement; GF_ORDER], _t: usize) {}
+}
+
+// ======================================================================
+// Engine-call preconditions shared by Probe and SpecEngine (from the trait
+// documentation and the table sizes): size = 2^n, truncated_size <= size,
+// the chunk lies inside the buffer, skew indexes stay inside the table.
+
+pub fn check_call(data: &ShardsRefMut, pos: usize, size: usize, trunc: usize, delta: usize) {
+    assert!(size.is_power_of_two(), "engine call: size is not a power of two");
+    assert!(trunc <= size, "engine call: truncated_size > size");
+    assert!(pos + size <= data.len(), "engine call: chunk outside the working space");
+    assert!(delta + size <= 65536, "engine call: skew_delta + size beyond the skew table");
+}
+
+// ======================================================================
+// Probe: records every engine call.
+
+pub const OP_FFT: u8 = 1;
+pub const OP_IFFT: u8 = 2;
+pub const OP_MUL: u8 = 3;
+pub const OP_EVAL: u8 = 4;
+pub const TRACE_CAP: usize = 48;
+
+#[derive(Clone, Copy, PartialEq, Eq, Debug)]
+pub struct Call {
+    pub op: u8,
+    pub pos: usize,
+    pub size: usize,
+    pub trunc: usize,
+    pub delta: usize,
+}
+
+pub static mut TRACE: [Call; TRACE_CAP] = [Call { op: 0, pos: 0, size: 0, trunc: 0, delta: 0 }; TRACE_CAP];
+pub static mut TRACE_LEN: usize = 0;
+
+pub fn trace_clear() {
+    unsafe {
+        TRACE_LEN = 0;
+    }
+}
+pub fn trace_len() -> usize {
+    unsafe { TRACE_LEN }
+}
+pub fn trace_get(i: usize) -> Call {
+    unsafe { TRACE[i] }
+}
+fn trace_push(c: Call) {
+    unsafe {
+        assert!(TRACE_LEN < TRACE_CAP, "spec table not supplied: probe trace capacity");
+        TRACE[TRACE_LEN] = c;
+        TRACE_LEN += 1;
+    }
+}
+
+#[derive(Clone, Copy)]
+pub struct Probe;
+
+impl Engine for Probe {
+    fn fft(&self, d: &mut ShardsRefMut, pos: usize, size: usize, trunc: usize, delta: usize) {
+        check_call(d, pos, size, trunc, delta);
+        trace_push(Call { op: OP_FFT, pos, size, trunc, delta });
+    }
+    fn ifft(&self, d: &mut ShardsRefMut, pos: usize, size: usize, trunc: usize, delta: usize) {
+        check_call(d, pos, size, trunc, delta);
+        trace_push(Call { op: OP_IFFT, pos, size, trunc, delta });
+    }
+    fn mul(&self, x: &mut [[u8; 64]], log_m: GfElement) {
+        trace_push(Call { op: OP_MUL, pos: x.as_ptr() as usize, size: x.len(), trunc: log_m as usize, delta: 0 });
+    }
+    fn eval_poly(_e: &mut [GfElement; GF_ORDER], t: usize) {
+        assert!(t <= GF_ORDER);
+        trace_push(Call { op: OP_EVAL, pos: 0, size: 0, trunc: t, delta: 0 });
+    }
+}
+
+// ======================================================================
+// SpecEngine: the executable engine CONTRACT (oracle constants only).
+
+/// number of live 16-bit symbol lanes per 64-byte block (1..=32); shards of
+/// 2*lanes bytes. Set (concretely) by the harness before use.
+pub static mut SPEC_LANES: usize = 1;
+
+pub fn set_lanes(n: usize) {
+    unsafe {
+        SPEC_LANES = n;
+    }
+}
+pub fn lanes() -> usize {
+    unsafe { SPEC_LANES }
+}
+
+/// product of a constant (given as its 16 words c*2^b) with a symbol
+#[inline(always)]
+pub fn lin(words: &[u16; 16], x: u16) -> u16 {
+    let mut r = 0u16;
+    let mut b = 0;
+    while b < 16 {
+        r ^= words[b] & 0u16.wrapping_sub((x >> b) & 1);
+        b += 1;
+    }
+    r
+}
+
+#[inline(always)]
+pub fn get_sym(block: &[u8; 64], lane: usize) -> u16 {
+    block[lane] as u16 | (block[32 + lane] as u16) << 8
+}
+#[inline(always)]
+pub fn set_sym(block: &mut [u8; 64], lane: usize, v: u16) {
+    block[lane] = v as u8;
+    block[32 + lane] = (v >> 8) as u8;
+}
+
+pub const MAX_SIZE: usize = 16;
+
+#[derive(Clone, Copy)]
+pub struct SpecEngine;
+
+impl SpecEngine {
+    fn transform(d: &mut ShardsRefMut, pos: usize, size: usize, trunc: usize, words: &'static [[u16; 16]], is_fft: bool) {
+        assert!(size <= MAX_SIZE, "spec table not supplied: transform size");
+        let nl = lanes();
+        let mut lane = 0;
+        while lane < nl {
+            let mut inp = [0u16; MAX_SIZE];
+            let mut kk = 0;
+            while kk < size {
+                assert!(d[pos + kk].len() == 1, "spec table not supplied: SpecEngine handles one block per shard");
+                inp[kk] = get_sym(&d[pos + kk][0], lane);
+                if !is_fft && kk >= trunc {
+                    // ifft contract: everything beyond truncated_size must be zero
+                    assert!(inp[kk] == 0, "ifft called with non-zero data beyond truncated_size");
+                }
+                kk += 1;
+            }
+            let mut i = 0;
+            while i < size {
+                let v = if is_fft && i >= trunc {
+                    // fft contract: outputs at or beyond truncated_size are garbage
+                    k::any::<u16>()
+                } else {
+                    let mut acc = 0u16;
+                    let mut kk = 0;
+                    while kk < size {
+                        acc ^= lin(&words[i * size + kk], inp[kk]);
+                        kk += 1;
+                    }
+                    acc
+                };
+                set_sym(&mut d[pos + i][0], lane, v);
+                i += 1;
+            }
+            lane += 1;
+        }
+    }
+}
+
+impl Engine for SpecEngine {
+    fn fft(&self, d: &mut ShardsRefMut, pos: usize, size: usize, trunc: usize, delta: usize) {
+        check_call(d, pos, size, trunc, delta);
+        let words = crate::gen::spec::fft_words(size, delta).expect("spec table not supplied: fft matrix");
+        Self::transform(d, pos, size, trunc, words, true);
+    }
+    fn ifft(&self, d: &mut ShardsRefMut, pos: usize, size: usize, trunc: usize, delta: usize) {
+        check_call(d, pos, size, trunc, delta);
+        let words = crate::gen::spec::ifft_words(size, delta).expect("spec table not supplied: ifft matrix");
+        Self::transform(d, pos, size, trunc, words, false);
+    }
+    fn mul(&self, x: &mut [[u8; 64]], log_m: GfElement) {
+        if log_m == 0 || log_m == 65535 {
+            return; // g^0 = g^65535 = 1
+        }
+        let words = crate::gen::spec::mulc_words(log_m).expect("spec table not supplied: multiplication constant");
+        assert!(x.len() == 1, "spec table not supplied: SpecEngine handles one block per shard");
+        let nl = lanes();
+        let mut lane = 0;
+        while lane < nl {
+            let v = get_sym(&x[0], lane);
+            set_sym(&mut x[0], lane, lin(words, v));
+            lane += 1;
+        }
+    }
+    fn eval_poly(er: &mut [GfElement; GF_ORDER], trunc: usize) {
+        spec_eval_poly(er, trunc);
+    }
+}
+
+pub static mut TAIL_CHECK_SYMBOLIC: bool = false;
+pub fn tail_check_symbolic() -> bool {
+    unsafe { TAIL_CHECK_SYMBOLIC }
+}
+pub fn set_tail_check_symbolic(b: bool) {
+    unsafe {
+        TAIL_CHECK_SYMBOLIC = b;
+    }
+}
+
+/// positions examined exactly by the eval_poly contract model
+pub const EB: usize = 16;
+
+/// eval_poly CONTRACT: for x < 32, er[x] := sum over marked j != x of
+/// LOG[x ^ j] (mod 65535). Marks at or beyond EB=16 must be uniform (all 0, or
+/// all 1 = the low-rate tail); checked through a nondeterministic index.
+/// Precondition of the real function: every non-zero entry is below
+/// `trunc`. Entries at or beyond 32 are left as they are (never read by the
+/// decoders within the configuration bound).
+pub fn spec_eval_poly(er: &mut [GfElement; GF_ORDER], trunc: usize) {
+    assert!(trunc <= GF_ORDER);
+    let tail = ghost_read(er, 65535);
+    assert!(tail <= 1);
+    if tail_check_symbolic() {
+        let j: usize = k::any();
+        k::assume(j >= EB && j < GF_ORDER);
+        assert!(ghost_read(er, j) == tail, "spec table not supplied: erasure marks beyond position 32 are not uniform");
+    } else {
+        // cheap variant: fixed probe positions
+        assert!(ghost_read(er, EB) == tail && ghost_read(er, 4097) == tail && ghost_read(er, 65534) == tail,
+            "spec table not supplied: erasure marks beyond position 32 are not uniform");
+    }
+    if tail == 1 {
+        assert!(trunc == GF_ORDER, "eval_poly: truncated_size does not cover the marked tail");
+    }
+    let mut m = [false; EB];
+    let mut j = 0;
+    while j < EB {
+        let e = ghost_read(er, j);
+        assert!(e <= 1);
+        m[j] = e == 1;
+        if m[j] {
+            assert!(j < trunc, "eval_poly: truncated_size does not cover a marked position");
+        }
+        j += 1;
+    }
+    let mut x = 0;
+    while x < EB {
+        // sum without intermediate reductions (at most 32 * 65535 < 2^21)
+        let mut acc: u32 = 0;
+        let mut j = 0;
+        while j < EB {
+            if j != x {
+                let take = if tail == 0 { m[j] } else { !m[j] };
+                if take {
+                    acc += crate::gen::spec::LOG32[x ^ j] as u32;
+                }
+            }
+            j += 1;
+        }
+        let pos = acc % 65535;
+        er[x] = if tail == 0 { pos as u16 } else { ((65535 - pos) % 65535) as u16 };
+        x += 1;
+    }
 }
